@@ -27,6 +27,8 @@ WARMUP = [
 ]
 BUNDLED_NAMES = ["clz32", "clz64", "clo32", "clo64", "revbit16", "revbit32", "revbit64", "fbrev", "conv_round", "fcirc_add",
                  "set_usr_field", "get_usr_field"]
+# (bundled routine, local) pairs that are not prefixed with the routine's name on the unchanged tree (known finding F4)
+KNOWN_F4_BUNDLED = {("fcirc_add", v) for v in ("K_const", "length", "new_ptr", "start_addr", "end_addr", "mask")} | {("conv_round", "conv_val")} | {("trap", "dummy")}
 FIXED_CALLERS = [
     # (text, checker name) - bundled routines used the way the shipped corpus uses them
     "{ RdV = clz32(RsV) + clz32(RtV); }",
@@ -465,13 +467,30 @@ class EngineC08(HistEngine):
                     sc, raw = n.split(":", 1)
                     owners.setdefault(raw, set()).add(sc.split("#")[0])
             cand = sorted(raw for raw, scs in owners.items() if len(scs) > 1 and raw != "ret_val")
-        kinds = set()
-        for k in cand:
-            kinds.add("temp" if re.match(r"^h_tmp", k) else "named-local")
         if not cand:
             return ("unknown", "", "")
-        writers = flat["callee_writes"] if flat is not None else {}
-        return ("+".join(sorted(kinds)), ",".join(cand), ",".join(writers.get(k, "") for k in cand))
+        writers = dict(flat["callee_writes"]) if flat is not None else {}
+        for n in scoped["all_locals"]:
+            if ":" in n:
+                sc, raw = n.split(":", 1)
+                writers.setdefault(raw, sc + ":")
+        kinds = set()
+        new_pairs = []
+        for k in cand:
+            if re.match(r"^h_tmp", k):
+                kinds.add("temp")
+                continue
+            kinds.add("named-local")
+            routine = writers.get(k, "").split("#")[0]
+            # known finding F4 lists the collisions that exist on the unchanged tree: locals of *generated* routines (named by
+            # this generator from the same pool as the caller's variables) and the unprefixed locals of bundled routines
+            if routine in cref.BUNDLED or routine in BUNDLED_NAMES:
+                if (routine, k) not in KNOWN_F4_BUNDLED:
+                    new_pairs.append(f"{routine}.{k}")
+        kind = "+".join(sorted(kinds))
+        if new_pairs:
+            kind += "[new:" + ",".join(sorted(set(new_pairs))) + "]"
+        return (kind, ",".join(cand), ",".join(writers.get(k, "") for k in cand))
 
     def fixed_reference(self, text, a, b, st):
         rs, rt = a & 0xFFFFFFFF, b & 0xFFFFFFFF
